@@ -358,6 +358,8 @@ def run(ctx):
         n_c = check_casts(ctx, QB, 'C09.8-key-lossless', include_float=False)
         if len(ctx.records) == before:
             ctx.ok('C09.8-key-lossless', q, 'no narrowing cast', ctx.where(QB))
+    from ..families import check_newtype_verbatim
+    check_newtype_verbatim(ctx, P, 'C09.8-key-lossless', ['edp_client::types::SequenceId'])
     ctx.rule('C09.8-content-blind', 'whether a fragment is stored and counted depends on its ids and on what was received before, never on its bytes: '
              'no branch of the assembler\'s add/start functions tests the payload (an empty piece is a legal fragment)', floor=3)
     for q, data_args in ((FM + '::add_fragment', ('data',)), (FA + '::add_fragment', ('payload',)), (FA + '::start_fragment', ('payload',))):
